@@ -94,6 +94,8 @@ var c12HTMLPrologue = []string{
 	"<meta name=\"description\" content=\"A short guide to charset detection\">", "<meta name=\"keywords\" content=\"charset\">", "<meta content=\"charset charset =\">", "<meta name=\"x\" content=\"the charset; charset\">",
 	"<meta http-equiv=\"Content-Type\" content=\"text/html\"><meta name=\"description\" content=\"mentions charset=decoy-after-pragma\">",
 	"<script src=\"a.js\"/>var s = \"<meta charset='fake-in-selfclosed-script'>\";</script>", "<title/>Title <meta charset=fake-in-selfclosed-title></title>", "<style/>/* <meta charset=fake-in-selfclosed-style> */</style>", "<textarea/><meta charset=fake-in-textarea></textarea>",
+	// structure tags before the declaration: a meta is honoured wherever the scan meets it
+	"</head>", "<head></head>", "</HEAD >", "<body>", "</head><body><p>text</p>", "<head><title>t</title></head><body class=\"x\">", "</html>", "</title>", "<p>para</p><div><span>deep</span></div>", "<noscript></noscript>", "<template></template>",
 	"<meta http-equiv=\"Content-Language\" content=\"en\">", "<meta http-equiv=\"X-UA-Compatible\" content=\"IE=edge\">", "<meta name=\"viewport\" content=\"width=device-width\"><meta name=\"generator\" content=\"x\">", "<meta name=\"charset\" content=\"decoy-name\">", "<meta property=\"og:title\" content=\"t\">", "\n", "  ", "<base href=\"/\">",
 }
 
